@@ -99,10 +99,11 @@ def load_catalogue(prop: str) -> List[Dict]:
             if os.path.exists(meta) and os.path.exists(patch):
                 with open(meta) as f:
                     m = json.load(f)
-                props = m.get("detected_by") or [m.get("property")]
-                if prop in props and m.get("expect", "fire") in ("fire", "miss"):
-                    out.append({"prop": prop, "id": f"seeded/{d}", "patch": patch, "expect": m.get("expect", "fire"),
-                                "rule": m.get("rule_hint", {}).get(prop) if isinstance(m.get("rule_hint"), dict) else None})
+                # enforced only for the property the change was written against; cross-detections by
+                # other properties are recorded in meta.json but not enforced here
+                if m.get("property") == prop:
+                    exp = "fire" if prop in (m.get("detected_by") or []) else "miss"
+                    out.append({"prop": prop, "id": f"seeded/{d}", "patch": patch, "expect": exp, "rule": None})
     return out
 
 
